@@ -132,9 +132,18 @@ def gen_program(rng, n=None):
         elif r < 0.75:
             lines.append("    #d16 %s" % operand())
         elif r < 0.8:
-            lines.append("    #res %d" % rng.randrange(0, 140))
+            if rng.random() < 0.45:
+                # a reserve whose size depends on (forward) labels: the layout after it moves with them
+                a, b = rng.choice(labels), rng.choice(labels)
+                lines.append("    #res " + rng.choice(["(%s - %s) & 7" % (a, b), "%s & 3" % a, "(%s + %d) & 3" % (a, rng.randrange(4)),
+                                                       "(%s - $) & 7" % a]))
+            else:
+                lines.append("    #res %d" % rng.randrange(0, 140))
         elif r < 0.84:
-            lines.append("    #align %d" % rng.choice([8, 16, 32, 64]))
+            if rng.random() < 0.3:
+                lines.append("    #align ((%s & 3) + 1) * 8" % rng.choice(labels))
+            else:
+                lines.append("    #align %d" % rng.choice([8, 16, 32, 64]))
         elif r < 0.9:
             name = "c%d" % len(consts)
             consts.append(name)
